@@ -838,6 +838,91 @@ def history_stream(ctx: Ctx, scratch: pathlib.Path) -> None:
 
 
 
+ARGUMENT_KINDS = [
+    "file", "dir", "fifo", "socket", "devnull", "dangling-symlink", "symlink-to-dir", "symlink-to-file", "below-file",
+    "missing", "nested-missing", "symlink-loop", "unsearchable-parent",
+]
+
+
+def _make_path(base: pathlib.Path, kind: str) -> pathlib.Path:
+    """A path of the given kind below ``base`` (a fresh directory)."""
+    import socket
+
+    p = base / "arg"
+    if kind == "file":
+        p.write_text("x")
+    elif kind == "dir":
+        p.mkdir()
+    elif kind == "fifo":
+        os.mkfifo(p)
+    elif kind == "socket":
+        s = socket.socket(socket.AF_UNIX)
+        s.bind(str(p))
+        s.close()
+    elif kind == "devnull":
+        return pathlib.Path("/dev/null")
+    elif kind == "dangling-symlink":
+        p.symlink_to(base / "nowhere")
+    elif kind == "symlink-to-dir":
+        (base / "realdir").mkdir()
+        p.symlink_to(base / "realdir")
+    elif kind == "symlink-to-file":
+        (base / "realfile").write_text("x")
+        p.symlink_to(base / "realfile")
+    elif kind == "below-file":
+        (base / "afile").write_text("x")
+        return base / "afile" / "sub"
+    elif kind == "nested-missing":
+        return base / "a" / "b" / "c"
+    elif kind == "symlink-loop":
+        p.symlink_to(p)
+    elif kind == "unsearchable-parent":
+        (base / "locked").mkdir()
+        return base / "locked" / "sub"
+    return p
+
+
+def argument_stream(ctx: Ctx, scratch: pathlib.Path) -> None:
+    """Every program argument pointing at every kind of file-system entry: the run ends with exit 0 and no stderr, or
+    non-zero with a report — an exception escaping ``execute`` is a traceback on the command line (non-zero exit without
+    a report)."""
+    valid = next(c for c in fixture_cases(1) if c[0] == "valid" and c[2] == "jsonschema")
+    _, model, target, snippets = valid
+    k = 0
+    for arg in ("output_dir", "snippets_dir", "model_path"):
+        for kind in ARGUMENT_KINDS:
+            if arg == "model_path" and kind == "fifo":
+                continue  # reading a FIFO without a writer blocks: not an argument error
+            k += 1
+            base = scratch / f"args_{k}"
+            base.mkdir()
+            try:
+                path = _make_path(base, kind)
+            except OSError:
+                ctx.hit("arguments:kind-unavailable=" + kind)
+                continue
+            locked = base / "locked"
+            if kind == "unsearchable-parent":
+                os.chmod(locked, 0)
+            args = {"model_path": model, "snippets_dir": snippets, "output_dir": base / "out_ok"}
+            args[arg] = path
+            try:
+                res = run_cli(args["model_path"], target, args["snippets_dir"], args["output_dir"], scratch)  # type: ignore
+            finally:
+                if kind == "unsearchable-parent":
+                    os.chmod(locked, 0o700)
+            ctx.count(("arguments", arg, kind), nontrivial=True, stream="cli-arguments")
+            ctx.hit(f"arguments:{arg}:{kind}:rc={res['rc']}" if res["exc"] is None else f"arguments:{arg}:{kind}:{res['exc']}")
+            inp = {"kind": "arguments", "argument": arg, "path_kind": kind, "target": target}
+            if res["exc"] is not None:
+                if kind == "unsearchable-parent" and os.geteuid() == 0:
+                    pass  # root is not stopped by permissions; whatever happens is not about the arguments
+                ctx.fail(inp, f"--{arg} pointing at a {kind}: execute raised {res['exc']} (a traceback instead of a report)", f"C03:arguments:crash:{arg}")
+            for sig, what in judge(res):
+                ctx.fail(inp, what, sig + ":arguments")
+            shutil.rmtree(base, ignore_errors=True)
+
+
 def subprocess_stream(ctx: Ctx, scratch: pathlib.Path) -> None:
     """The real process exit status: `python -m aas_core_codegen` and the console-script entry point."""
     import subprocess
@@ -898,6 +983,7 @@ def oracle(ctx: Ctx) -> None:
             # a witness of the missing-snippet sub-stream: this target without this snippet
             generator_error_stream(ctx, scratch, only=("missing-snippet", c["target"], c["missing"]), models=[("missing-snippet", c["model"])])
     history_stream(ctx, scratch)
+    argument_stream(ctx, scratch)
     subprocess_stream(ctx, scratch)
 
 
@@ -909,6 +995,15 @@ def replay(ctx: Ctx, data: Dict[str, Any]) -> Any:
         if ctx.driver_ok:
             res["model"] = ctx.model([f"write {enc_text(inp['message'])} {enc_list(inp['errors'])}"])[0]
         return res
+    if inp.get("kind") == "arguments":
+        valid = next(c for c in fixture_cases(1) if c[0] == "valid" and c[2] == "jsonschema")
+        base = scratch / "args_replay"
+        base.mkdir()
+        path = _make_path(base, inp["path_kind"])
+        args = {"model_path": valid[1], "snippets_dir": valid[3], "output_dir": base / "out_ok"}
+        args[inp["argument"]] = path
+        res = run_cli(args["model_path"], valid[2], args["snippets_dir"], args["output_dir"], scratch)  # type: ignore
+        return {"rc": res["rc"], "stderr": res["stderr"], "exc": res["exc"], "oracle": judge(res)}
     if inp.get("kind") == "front-end-errors":
         sn = REPO / "dev/test_data/main/jsonschema/expected/primitive_types/input/snippets"
         mp = scratch / "fe_replay.py"
